@@ -121,7 +121,7 @@ class C15(E1Check):
             return False
         if op[0] == "bad_insert_multiple" and len(contents) + len(op[1]) > cfg.get("N", self.bounds()["N"]):
             return False
-        if op[0] in ("update_raise", "update_badret"):
+        if op[0] in ("update_raise", "update_badret", "query_raise"):
             return W.fault_enabled(op, contents) and W.ref_apply(op, contents, self.alpha)[1] == ("exc",)
         return True
 
